@@ -7,6 +7,8 @@ import (
 	"os"
 	"path/filepath"
 	"runtime"
+	"runtime/debug"
+	"runtime/pprof"
 	"sort"
 	"strconv"
 	"strings"
@@ -14,6 +16,7 @@ import (
 )
 
 func main() {
+	debug.SetGCPercent(400)
 	if len(os.Args) < 2 {
 		fmt.Fprintln(os.Stderr, "usage: gosmt check <property> [flags] | gosmt list | gosmt replay <file>")
 		os.Exit(2)
@@ -70,6 +73,8 @@ func cmdCheck(args []string) int {
 	noReplay := fs.Bool("no-replay", false, "skip native replay")
 	timeout := fs.Int("timeout", 30000, "solver timeout per query (ms)")
 	maxPaths := fs.Int("max-paths", 0, "stop a harness after this many paths (0 = no limit)")
+	cpuprof := fs.String("cpuprofile", "", "write cpu profile")
+	instFilter := fs.String("inst", "", "only instances whose description contains this")
 	noEvidence := fs.Bool("no-evidence", false, "do not write the evidence file")
 	var props []string
 	for len(args) > 0 && !strings.HasPrefix(args[0], "-") {
@@ -87,6 +92,11 @@ func cmdCheck(args []string) int {
 		fmt.Fprintln(os.Stderr, "load failed:", err)
 		return 2
 	}
+	if *cpuprof != "" {
+		f, _ := os.Create(*cpuprof)
+		pprof.StartCPUProfile(f)
+		defer pprof.StopCPUProfile()
+	}
 	g.loadKnown()
 	all := g.Harnesses(*tier)
 	rc := 0
@@ -101,7 +111,7 @@ func cmdCheck(args []string) int {
 			fmt.Fprintf(os.Stderr, "no harness for %s\n", prop)
 			return 2
 		}
-		r := g.checkProperty(prop, hs, *tier, *seed, RunOpts{Workers: *workers, Solver: *solver, TimeoutMs: *timeout, MaxViol: 8, Verbose: *verbose, MaxPaths: *maxPaths}, !*noReplay, t0, !*noEvidence)
+		r := g.checkProperty(prop, hs, *tier, *seed, RunOpts{Workers: *workers, Solver: *solver, TimeoutMs: *timeout, MaxViol: 8, Verbose: *verbose, MaxPaths: *maxPaths, InstFilter: *instFilter}, !*noReplay, t0, !*noEvidence)
 		if r > rc {
 			rc = r
 		}
